@@ -9,7 +9,7 @@ import (
 
 func init() {
 	props["C06"] = &propCheck{
-		lean:    []string{"JSight.Props.C06"},
+		lean:    []string{"JSight.Props.C06", "JSight.Props.C06_Obeys"},
 		exes:    []string{"jsight-ctx"},
 		run:     runC06,
 		assume:  []string{"the theorems are about the frame-stack model of the parent-pointer code; the equivalence is the tree correspondence", "directive attributes read by the resolution (kind, Path parameter, parenthesis) are delivered by the scanner as modelled under C14"},
